@@ -189,3 +189,67 @@ func uriOK(u *PsipURI) bool {
 func moved(n, o PField, s0, s1 int) bool {
 	return n.Len == o.Len && ((o.Offs == 0 && n.Offs == 0) || (o.Offs != 0 && int(n.Offs)-s1 == int(o.Offs)-s0))
 }
+
+// ---- numbers (C10) ----
+
+// satstep: v*10+d saturated at 2^64-1 (exact: no wrap-around).
+func satstep(v uint64, d byte) uint64 {
+	const max = ^uint64(0)
+	if v > (max-uint64(d))/10 {
+		return max
+	}
+	return v*10 + uint64(d)
+}
+
+// satdec: the decimal value of the digit string buf[a:b), saturated at 2^64-1. Whenever the result is
+// below 2^64-1 it is the mathematical value. The verifier treats it as uninterpreted, with the two
+// unfolding equations given as its contract; this loop is its executable twin (used by replays).
+func satdec(buf []byte, a, b int) uint64 {
+	var v uint64
+	for k := a; k < b; k++ {
+		v = satstep(v, buf[k]-'0')
+	}
+	return v
+}
+
+func allDigits(buf []byte, a, b int) bool {
+	return forall(a, b, func(k int) bool { return isDigit(buf[k]) })
+}
+
+// csNum: the number accumulated so far is the decimal value of the digits consumed so far.
+func csNum(p *PCSeqBody, buf []byte, i int) bool {
+	if p.state == csFoundDigit {
+		return p.soffs < i && allDigits(buf, p.soffs, i) && uint64(p.CSeqNo) == satdec(buf, p.soffs, i)
+	}
+	if p.state > csFoundDigit && p.state < csFIN {
+		return p.CSeq.Len > 0 && allDigits(buf, int(p.CSeq.Offs), fend(p.CSeq)) && uint64(p.CSeqNo) == satdec(buf, int(p.CSeq.Offs), fend(p.CSeq))
+	}
+	return true
+}
+
+func clNum(p *PUIntBody, buf []byte, i int) bool {
+	if p.state == clFound {
+		return p.soffs < i && allDigits(buf, p.soffs, i) && uint64(p.UIVal) == satdec(buf, p.soffs, i)
+	}
+	if p.state == clEnd {
+		return clFinNum(p, buf)
+	}
+	return true
+}
+
+func clFinNum(p *PUIntBody, buf []byte) bool {
+	return p.SVal.Len > 0 && allDigits(buf, int(p.SVal.Offs), fend(p.SVal)) && uint64(p.UIVal) == satdec(buf, int(p.SVal.Offs), fend(p.SVal))
+}
+
+// nameIs: buf[a:b) equals lit ignoring letter case.
+func nameIs(buf []byte, a, b int, lit []byte) bool {
+	return b-a == len(lit) && cieq(buf[a:b], lit)
+}
+
+// satu32: saturation of a 64-bit value at 2^32-1.
+func satu32(v uint64) uint32 {
+	if v < uint64(^uint32(0)) {
+		return uint32(v)
+	}
+	return ^uint32(0)
+}
